@@ -40,7 +40,10 @@ FLOORS = {"quick": {"fault:flip": 30000, "fault:length": 2000, "fault:respell": 
           "thorough": {"fault:flip": 300000}}
 EXPENSIVE = tuple(rjwe.RSA_ALGS) + tuple(rjwe.PBES2) + tuple(rjwe.ECDH_ES) + tuple(rjwe.ECDH_1PU)
 
-small_pt = st.one_of(st.just(b""), st.binary(max_size=16), st.just(b'{"sub":"a","exp":2000000000}'), st.binary(min_size=17, max_size=48))
+import zlib as _zlib
+small_pt = st.one_of(st.just(b""), st.binary(max_size=16), st.just(b'{"sub":"a","exp":2000000000}'), st.binary(min_size=17, max_size=48),
+                     # a plaintext that is itself a DEFLATE / zlib stream (an application that compresses before encrypting)
+                     st.binary(max_size=12).map(lambda b: rjwe.deflate(b"A" * 20 + b)), st.binary(max_size=12).map(lambda b: _zlib.compress(b"A" * 20 + b)))
 
 case_strategy = st.fixed_dictionaries({
     "plan": jp.plans(max_recipients=3, small=True),
@@ -234,6 +237,19 @@ def apply_fault(token, token2, fault, plan):
         t = copy.deepcopy(token)
         _recipient_entries(t)[0]["encrypted_key"] = rb.encode(bytes(fault["value"]))
         return t
+    if k == "unprot-set":
+        if isinstance(token, str):
+            return None
+        t = copy.deepcopy(token)
+        prot = json.loads(rb.decode(t["protected"])) if t.get("protected") else {}
+        if fault["name"] in ("enc", "alg") and fault["name"] not in prot:
+            return None      # only where the protected header already settles the member
+        if fault["where"] == "unprotected":
+            t["unprotected"] = {**(t.get("unprotected") or {}), fault["name"]: fault["value"]}
+        else:
+            e = _recipient_entries(t)[0]
+            e["header"] = {**(e.get("header") or {}), fault["name"]: fault["value"]}
+        return t
     if k == "add-empty-aad":
         if isinstance(token, str) or "aad" in token:
             return None
@@ -328,6 +344,37 @@ def apply_fault(token, token2, fault, plan):
 def enumerate_faults(token, plan, case):
     algs = [r["alg"] for r in plan["recipients"]]
     seg_list = _segs(token, plan)
+    # structural faults first: they are few and must not be cut off by the time budget
+    if algs[0] in rjwe.DIRECT:
+        for v in ([0], [1, 2, 3], list(range(16))):
+            yield {"kind": "nonempty-ek", "value": v}
+    yield {"kind": "add-empty-aad", "value": [97]}
+    yield {"kind": "drop-aad"}
+    for i, r in enumerate(plan["recipients"]):
+        if r["alg"] in rjwe.ECDH_ES or r["alg"] in rjwe.ECDH_1PU:
+            for m in ("x", "y"):
+                for bit in case["sample_bits"][:6]:
+                    yield {"kind": "epk-flip", "i": i, "member": m, "bit": bit % 256}
+            for k in ("epk-zero", "epk-big-x", "epk-add-d", "epk-drop-y", "epk-kty"):
+                yield {"kind": k, "i": i}
+            key = gk.key_from_record(r["key"])
+            oc = {"P-256": "P-384", "P-384": "P-521", "P-521": "P-256", "secp256k1": "P-256", "X25519": "X448", "X448": "X25519"}[key["crv"]]
+            ok = gk.ec_from_d(oc, 12345) if key["kty"] == "EC" else gk.okp_from_seed(oc, bytes(range(1, 57))[: (32 if oc == "X25519" else 56)])
+            yield {"kind": "epk-other-curve", "i": i, "jwk": rk.export_jwk(ok, private=False)}
+    n = len(plan["recipients"])
+    if n > 1:
+        for i in range(n):
+            yield {"kind": "rcpt-corrupt-one", "i": i, "byte": case["sample_bits"][0]}
+            yield {"kind": "rcpt-foreign-cek", "i": i}
+            yield {"kind": "rcpt-drop", "i": i}
+    yield {"kind": "rcpt-all-bad"}
+    yield {"kind": "rcpt-empty"}
+    if not isinstance(token, str):
+        # members that only count when integrity protected, planted in the unprotected headers
+        other_enc = "A256GCM" if plan["enc"] != "A256GCM" else "A128GCM"
+        for where in ("unprotected", "recipient"):
+            for name, value in (("zip", "DEF"), ("enc", other_enc), ("alg", "dir")):
+                yield {"kind": "unprot-set", "where": where, "name": name, "value": value}
     for addr, kind in seg_list:
         try:
             data = rb.decode(_get(token, addr))
@@ -366,30 +413,6 @@ def enumerate_faults(token, plan, case):
                     yield {"kind": "shift-boundary", "from": list(addrs[a]), "to": list(addrs[b]), "n": n, "dir": d, "seg": f"{a}|{b}"}
     for i, s in enumerate(case["respell_seeds"]):
         yield {"kind": "respell", "style": ["whitespace", "reordered", "escaped", "mixed", "whitespace", "mixed"][i], "seed": s}
-    if algs[0] in rjwe.DIRECT:
-        for v in ([0], [1, 2, 3], list(range(16))):
-            yield {"kind": "nonempty-ek", "value": v}
-    yield {"kind": "add-empty-aad", "value": [97]}
-    yield {"kind": "drop-aad"}
-    for i, r in enumerate(plan["recipients"]):
-        if r["alg"] in rjwe.ECDH_ES or r["alg"] in rjwe.ECDH_1PU:
-            for m in ("x", "y"):
-                for bit in case["sample_bits"][:6]:
-                    yield {"kind": "epk-flip", "i": i, "member": m, "bit": bit % 256}
-            for k in ("epk-zero", "epk-big-x", "epk-add-d", "epk-drop-y", "epk-kty"):
-                yield {"kind": k, "i": i}
-            key = gk.key_from_record(r["key"])
-            oc = {"P-256": "P-384", "P-384": "P-521", "P-521": "P-256", "secp256k1": "P-256", "X25519": "X448", "X448": "X25519"}[key["crv"]]
-            ok = gk.ec_from_d(oc, 12345) if key["kty"] == "EC" else gk.okp_from_seed(oc, bytes(range(1, 57))[: (32 if oc == "X25519" else 56)])
-            yield {"kind": "epk-other-curve", "i": i, "jwk": rk.export_jwk(ok, private=False)}
-    n = len(plan["recipients"])
-    if n > 1:
-        for i in range(n):
-            yield {"kind": "rcpt-corrupt-one", "i": i, "byte": case["sample_bits"][0]}
-            yield {"kind": "rcpt-foreign-cek", "i": i}
-            yield {"kind": "rcpt-drop", "i": i}
-    yield {"kind": "rcpt-all-bad"}
-    yield {"kind": "rcpt-empty"}
 
 
 def fault_class(fault) -> str:
@@ -529,6 +552,22 @@ def run_fault(case, plan, token, token2, fault, entry):
     ft = apply_fault(token, token2, fault, plan)
     if ft is None:
         return "n/a"
+    if fault["kind"] == "unprot-set":
+        # the unprotected headers are not authenticated: whatever is planted there, a returned plaintext is the one that was encrypted
+        try:
+            got, is_claims = call_entry(entry, ft, plan)
+        except Exception:
+            return None
+        want = bytes.fromhex(plan["plaintext_hex"])
+        if is_claims:
+            try:
+                want = json.loads(want)
+            except ValueError:
+                return ("claims-from-non-json", f"claims {got!r}")
+        if got != want:
+            return ("unauthenticated-member-changes-plaintext", f"{entry}: with {fault['name']}={fault['value']!r} planted in the {fault['where']} header "
+                                                                f"{str(got)[:60]!r} comes back; the encrypted plaintext is {str(want)[:60]!r}")
+        return "ok"
     return judge(entry, ft, plan)
 
 
